@@ -16,7 +16,8 @@ RULE = ("G-core generated programs without assignment, `+=` or while loops (shad
         "expression statements (extract-function only). "
         "Second population: a function whose body is a generated tree of value blocks (then / else / else-if / "
         "match-arm / for-body / closure-body), each binding a block-local variable used by pure calls in statement, "
-        "argument and result positions; the selections are those calls. "
+        "argument and result positions (one of those locals may share its name with a top-level function); the "
+        "selections are those calls. "
         "Each selection is given to the real `reftest-extract-variable` and `reftest-extract-function` with a fresh "
         "name; where the command produces a program it must parse, and - where the original ran without error - "
         "print the same stdout and end without error. Non-trivial = the command changed the program and the selected "
@@ -96,6 +97,7 @@ def gen_ctrl(r):
     argument and result positions; the selections are exactly those calls (found by their unique M)"""
     counter = [100]
     sels = []
+    shade_used = [False]
 
     def fresh():
         counter[0] += 1
@@ -111,6 +113,10 @@ def gen_ctrl(r):
         """-> (lines, result expression)"""
         k = fresh()
         v = f"v{k}"
+        if not shade_used[0] and r.int(0, 3) == 0:
+            # one block-local variable per program may share its name with the top-level function `shade`
+            v = "shade"
+            shade_used[0] = True
         lines = [f"{ind}let {v} = {src_var} + {k}"]
         if r.bool():
             lines.append(f"{ind}println(string_repr({use(v)}))")
@@ -148,13 +154,14 @@ def gen_ctrl(r):
         return lines, res
 
     lines, res = value_block(r.choice([1, 2, 3]), "  ", "i")
-    src = ("fun helper(n: Int): Int { n * 2 }\n\nfun body(i: Int): Int {\n" + "\n".join(lines) + f"\n  {res}\n}}\n\n"
-           "for i in [0, 1, 2] {\n  println(string_repr(body(i)))\n}\n")
+    src = ("fun helper(n: Int): Int { n * 2 }\n\nfun shade(n: Int): Int { n + 1 }\n\nfun body(i: Int): Int {\n" + "\n".join(lines) + f"\n  {res}\n}}\n\n"
+           "for i in [0, 1, 2] {\n  println(string_repr(body(i) + shade(i)))\n}\n")
     picked = []
     for _ in range(r.int(3, 5)):
         t = sels[r.int(0, len(sels) - 1)]
         o = src.find(t)
-        picked.append({"span": [o, o + len(t)], "kind": "call", "local": True, "shape": "ctrl-tree"})
+        picked.append({"span": [o, o + len(t)], "kind": "call", "local": True,
+                       "shape": "ctrl-tree-shadows-toplevel" if "shade" in t else "ctrl-tree"})
     return {"src": src, "sels": picked}
 
 
